@@ -12,7 +12,7 @@ def strip_impl(o):
 
 
 def strip_model(o):
-    return re.sub(r" known=\d", "", o)
+    return re.sub(r" known=\d docok=\d", "", o)
 
 
 def run(ctx):
@@ -20,6 +20,13 @@ def run(ctx):
     model = build_model()
     impl = build_impl()
     setup_builtin(impl)
+    # hypothesis bi_b0_ok of C12_rebuild / C12_fixpoint, evaluated on the real built-in definitions
+    b0ok = run_family(model, "sb_b0_ok", ["-"])[0]
+    ctx.cov["bi_b0_ok_on_real_builtins"] = b0ok == "b0_ok"
+    if b0ok != "b0_ok":
+        ctx.violation({"what": "the built-in definitions of SchemaBuilder::new() no longer satisfy bi_b0_ok (empty schema "
+                               "definition, built-in flags, distinct names, no extension components): the hypothesis of "
+                               "C12_rebuild does not hold for the real initial state", "observed": b0ok}, no_input=True)
     n = 1200 if ctx.tier == "quick" else 20000
     cases = [("corpus:" + name, cfg, text) for name, text in corpus_texts("C12") for cfg in ("-", "a")]
     for fl, cfg, items in gen_histories(ctx, n):
@@ -60,6 +67,13 @@ def run(ctx):
     fam["valid_inputs"] = sum(1 for _, i, _ in rows if i.startswith("ok valid=1"))
     fam["in_known_class"] = sum(1 for _, _, m in rows if " known=1 " in m)
     fam["with_extensions"] = sum(1 for _, i, _ in rows if i.startswith("ok") and "Ox(n" in i)
+    # hypothesis bi_doc_ok of C12_rebuild: what the real parser produced
+    bad_docs = [(c, i, m) for c, i, m in rows if " docok=0 " in m]
+    fam["bi_doc_ok_false"] = len(bad_docs)
+    for c, i, m in bad_docs[:2]:
+        ctx.violation({"family": "c12_rt", "case": c, "case_readable": desc2(c), "impl": i, "model": m,
+                       "what": "the parser produced a schema definition without root operations: hypothesis bi_doc_ok of "
+                               "C12_rebuild does not hold for this input"})
     for (fl, cfg, t, a), (c, i, m) in list(zip(cases, rows))[:: max(1, len(rows) // 4)]:
         ctx.sample({"family": "c12_rt", "flavour": fl, "cfg": cfg, "source": t, "impl": i[:160], "model": m[:160]}, limit=5)
     ctx.cov["syntax_errors_skipped"] = syntax
